@@ -1,0 +1,17 @@
+//go:build verif
+
+package plugins
+
+import "github.com/movio/bramble"
+
+// VerifRoles returns the role table the JWT plugin currently enforces (verification harness only).
+func (p *JWTPlugin) VerifRoles() map[string]bramble.OperationPermissions { return p.config.Roles }
+
+// VerifKeyIDs returns the key ids the JWT plugin currently accepts (verification harness only).
+func (p *JWTPlugin) VerifKeyIDs() []string {
+	var out []string
+	for k := range p.publicKeys {
+		out = append(out, k)
+	}
+	return out
+}
